@@ -973,7 +973,7 @@ async def _(mpc):
     return await mpc.transfer(len(r))
 
 
-@open_case('C37', 'C37-item-shape-bool-mask', 'a[0, :, mask2d]: declared shape of the placeholder vs shape of the value', numpy=True,
+@case('C37', 'a[0, :, mask2d]: declared shape of the placeholder vs shape of the value', 'b9a0237', numpy=True,
            expected=[[2, 3], [2, 3]])
 async def _(mpc):
     T = mpc.SecInt(16)
@@ -984,7 +984,7 @@ async def _(mpc):
     return [list(r.shape), list((await mpc.output(r)).shape)]
 
 
-@open_case('C31', 'C31-secindex-await', 'await secindex(unit vector of secure integers)', expected=2)
+@case('C31', 'await secindex(unit vector of secure integers)', '31ccccb', expected=2)
 async def _(mpc):
     from mpyc.seclists import secindex
     secint = mpc.SecInt(16)
@@ -999,7 +999,7 @@ async def _(mpc):
     return abs(float(await mpc.output(S.mean([F(20000.0)] * 3))) - 20000.0) <= 16 * 2 ** -16
 
 
-@open_case('C29', 'C29-secflt-rows', 'sorted rows of secure floats by their first entry', expected=[[1.0, 20.0], [3.0, 10.0]])
+@case('C29', 'sorted rows of secure floats by their first entry', '896c1d4', expected=[[1.0, 20.0], [3.0, 10.0]])
 async def _(mpc):
     T = mpc.SecFlt(32)
     rows = [[T(3.0), T(10.0)], [T(1.0), T(20.0)]]
@@ -1007,7 +1007,7 @@ async def _(mpc):
     return [[float(await mpc.output(v)) for v in row] for row in r]
 
 
-@open_case('C29', 'C29-secflt-public-operand', 'min of a secure float and a public float', expected=1.0)
+@case('C29', 'min of a secure float and a public float', '896c1d4', expected=1.0)
 async def _(mpc):
     T = mpc.SecFlt(32)
     return float(await mpc.output(mpc.min(T(1e8), 1.0)))
@@ -1020,6 +1020,82 @@ async def _(mpc):
     a = S.array(np.array([1.5, -2.25]))
     counts = await mpc.output(mpc.SecInt(16).array(np.array([2, 3])))       # revealed secure integers: dtype object
     return [float(v) for v in await mpc.output(a * np.asarray(counts, dtype=object))]
+
+
+@case('C28', 'secgrp.repeat with a public base and a public exponent', '9fc116a', expected=[True, True])
+async def _(mpc):
+    from mpyc import fingroups
+    G = fingroups.QuadraticResidues(l=8)
+    S = mpc.SecGrp(G)
+    g = G.generator
+    return [await mpc.output(S.repeat(g, 5)) == g ** 5, await mpc.output(S.repeat(S(g), 5)) == g ** 5]
+
+
+@case('C28', 'secure class group division 36 divmod 3 and friends, 400 calls', '05231ed', expected=0)
+async def _(mpc):
+    from mpyc import secgroups
+    secint = mpc.SecInt(9)
+    bad = 0
+    for (a, b) in ((36, 3), (6, 3), (35, 5), (37, 5)):
+        for _ in range(100):
+            try:
+                q, r = await mpc.output(list(secgroups._divmod(secint(a), secint(b))))
+            except AssertionError:
+                bad += 1
+                continue
+            bad += (int(q), int(r)) != divmod(a, b)
+    return bad
+
+
+@case('C31', 'secindex: sum of two indices with offsets over secure fixed-point numbers, opened', '31ccccb', expected=[2, 5, 15])
+async def _(mpc):
+    from mpyc.seclists import secindex, seclist
+    st = mpc.SecFxp(16, 8)
+    i = secindex([st(0), st(0), st(1), st(0)])
+    j = secindex([st(0), st(1), st(0)], offset=2)
+    s = seclist([10, 11, 12, 13, 14, 15, 16, 17], st)
+    return [await i, await (i + j), int(await mpc.output(s[i + j]))]
+
+
+@case('C29', 'min / max / argmin / min_max on rows of secure floats; max with a public float, 3 parties', '896c1d4', cfg=(3, 1, False),
+      expected=[[1.0, 20.0], [3.0, 10.0], 1.0, [2.0, -5.5], -1.0])
+async def _(mpc):
+    T = mpc.SecFlt(32)
+    rows = [[T(3.0), T(10.0)], [T(1.0), T(20.0)], [T(2.0), T(-5.5)]]
+
+    async def o(row):
+        return [float(await mpc.output(v)) for v in row]
+    i, r = mpc.argmin(rows, key=lambda r_: r_[0])
+    mn, _mx = mpc.min_max(rows, key=lambda r_: r_[1])
+    return [await o(mpc.min(rows, key=lambda r_: r_[0])), await o(mpc.max(rows, key=lambda r_: r_[0])), float(await mpc.output(i)),
+            await o(mn), float(await mpc.output(mpc.max(T(-1e8), -1.0)))]
+
+
+@case('C37', 'a[..., mask2d], a[mask2d, None, 0], a[::2, [0,1,0], ..., -2]: declared shape = shape of the value', 'b9a0237', numpy=True,
+      expected=True)
+async def _(mpc):
+    T = mpc.SecInt(16)
+    c = T.array(np.arange(120).reshape(2, 3, 4, 5))
+    m45 = np.zeros((4, 5), dtype=bool)
+    m45[1, 2] = m45[3, 0] = m45[0, 4] = True
+    m23 = np.array([[True, False, True], [False, True, False]])
+    ok = True
+    for key in ((Ellipsis, m45), (m23, Ellipsis), (m23, None, 0), (m23, slice(None), 0), (0, slice(None, None, 2), [0, 1, 0], Ellipsis, -2)):
+        r = c[key]
+        v = await mpc.output(r)
+        ok = ok and tuple(r.shape) == tuple(v.shape) and np.array_equal(v, np.arange(120).reshape(2, 3, 4, 5)[key])
+    return ok
+
+
+@open_case('C28', 'C28-ext-field-condition', 'if_else with a SecFld(order) condition over BN256_twist (secure type over GF(p^2))', expected=[True, True],
+           max_steps=6_000_000)
+async def _(mpc):
+    from mpyc import fingroups
+    G = fingroups.EllipticCurve('BN256_twist', 'projective')
+    S = mpc.SecGrp(G)
+    secfld = mpc.SecFld(G.order)
+    g, e = G.generator, G.identity
+    return [await mpc.output(S.if_else(secfld(1), g, e)) == g, await mpc.output(S.if_else(secfld(0), g, e)) == e]
 
 
 # ---------------------------------------------------------------------------------------------------- driver
